@@ -64,7 +64,8 @@ impl<M: Mask> Info<M> {
         let ue = spec.user_edges();
         let user_reach: Vec<M> = closure_m(n, &ue);
         let user_pred = transpose_m(n, &user_reach);
-        let be: Vec<(usize, usize)> = raw_edges(g).iter().map(|&(a, b, _)| (a, b)).collect();
+        // (nodes beyond spec.n exist only for Spec::prov == 6 and are unknown to the scheduler)
+        let be: Vec<(usize, usize)> = raw_edges(g).iter().map(|&(a, b, _)| (a, b)).filter(|&(a, b)| a < n && b < n).collect();
         let mut built_pred: Vec<M> = (0..n).map(|_| M::zero(n)).collect();
         let mut built_succ: Vec<M> = (0..n).map(|_| M::zero(n)).collect();
         for &(a, b) in &be {
